@@ -2,7 +2,8 @@
 //! Correspondence: write-fonts glyph writer / read-fonts glyph reader / loca vs Model/Glyf.lean.
 //! Oracles (model independent): write -> read round trips (points, flags, end points, bbox,
 //! instructions, components), canonical-shortest length, GlyfLocaBuilder + get_glyf, BezPath ->
-//! glyph -> font -> skrifa draw.
+//! glyph -> font -> skrifa draw (segments up to rotation for arbitrary paths; the exact move / line / quad / close
+//! sequence for closed integer paths whose on-curve joins sit on or next to the midpoint of their control points).
 use font_types::{F2Dot14, GlyphId, GlyphId16};
 use fv_harness::common::*;
 use read_fonts::tables::glyf as rglyf;
@@ -1168,6 +1169,202 @@ fn draw_case(s: &mut Session, path: &kurbo::BezPath) {
     s.oracle("bezpath-draws-back", r.is_ok(), || svg.clone(), || r.clone().unwrap_err());
 }
 
+// ---------------------------------------------------------------- implied on-curve joins: exact redraw
+
+/// one coordinate of an on-curve join between control coordinates `a` and `b`: on the exact midpoint when the sum
+/// is even (rarely one unit off), on one of the two grid points next to the x.5 midpoint when it is odd (floor =
+/// truncation for positive sums, ceil = truncation for negative sums; rarely one further out)
+fn join_coord(rng: &mut Rng, a: i64, b: i64) -> (i64, &'static str) {
+    let s = a + b;
+    let fl = s.div_euclid(2);
+    if s.rem_euclid(2) == 0 {
+        match rng.below(8) {
+            0 => (fl + 1, "off1"),
+            1 => (fl - 1, "off1"),
+            _ => (fl, "mid"),
+        }
+    } else {
+        let toward_zero = if s < 0 { fl + 1 } else { fl };
+        match rng.below(10) {
+            0..=3 => (toward_zero, "trunc"),
+            4..=7 => (2 * fl + 1 - toward_zero, "away"),
+            8 => (fl - 1, "off1"),
+            _ => (fl + 2, "off1"),
+        }
+    }
+}
+
+/// A closed contour of line / quadratic segments on integer coordinates in which most on-curve points between
+/// two quads (incl. the start point, between the last and the first quad) sit on or right next to the midpoint of
+/// the neighbouring control points: (a) exactly on it, (b) on the truncated / rounded-up half-sum when the sum is
+/// odd (both axes, one axis, negative coordinates), (c) one unit off. No zero-length lines.
+fn gen_join_contour(rng: &mut Rng, s: &mut Session, path: &mut kurbo::BezPath) {
+    let g = *rng.pick(&[6i64, 12, 40, 1000, 16000]);
+    let pt = |rng: &mut Rng| (rng.range(-g, g), rng.range(-g, g));
+    loop {
+        let n = rng.range(2, 7) as usize;
+        let quad: Vec<bool> = (0..n).map(|_| rng.chance(3, 4)).collect();
+        // control points: the parity of the sum with the previous control point decides what the join can be
+        let mut c: Vec<(i64, i64)> = vec![];
+        for i in 0..n {
+            let mut p = pt(rng);
+            if i > 0 && quad[i] && quad[i - 1] {
+                let (want_odd_x, want_odd_y) = match rng.below(8) {
+                    0 | 1 => (false, false),
+                    2 | 3 => (true, true),
+                    4 => (true, false),
+                    5 => (false, true),
+                    _ => ((p.0 + c[i - 1].0) & 1 != 0, (p.1 + c[i - 1].1) & 1 != 0),
+                };
+                if ((p.0 + c[i - 1].0) & 1 != 0) != want_odd_x {
+                    p.0 += if p.0 < g { 1 } else { -1 };
+                }
+                if ((p.1 + c[i - 1].1) & 1 != 0) != want_odd_y {
+                    p.1 += if p.1 < g { 1 } else { -1 };
+                }
+            }
+            c.push(p);
+        }
+        let mut on: Vec<(i64, i64)> = vec![];
+        let mut kinds: Vec<String> = vec![];
+        for i in 0..n {
+            let prev = (i + n - 1) % n;
+            if quad[prev] && quad[i] && rng.chance(9, 10) {
+                let (x, kx) = join_coord(rng, c[prev].0, c[i].0);
+                let (y, ky) = join_coord(rng, c[prev].1, c[i].1);
+                on.push((x, y));
+                let neg = if c[prev].0 + c[i].0 < 0 || c[prev].1 + c[i].1 < 0 { ",negative-sum" } else { "" };
+                let k = match (kx, ky) {
+                    ("mid", "mid") => "exact-midpoint".to_string(),
+                    ("off1", _) | (_, "off1") => "off-by-one".to_string(),
+                    ("mid", k) => format!("x-exact,y-half-{k}{neg}"),
+                    (k, "mid") => format!("x-half-{k},y-exact{neg}"),
+                    (a, b) => format!("x-half-{a},y-half-{b}{neg}"),
+                };
+                kinds.push(k);
+            } else {
+                on.push(pt(rng));
+            }
+        }
+        let degenerate = (0..n).any(|i| !quad[i] && on[i] == on[(i + 1) % n]);
+        if degenerate || on.iter().chain(c.iter()).any(|p| p.0.abs() > 16383 || p.1.abs() > 16383) {
+            continue;
+        }
+        for k in kinds {
+            s.count(&format!("join:{k}"));
+        }
+        let f = |p: (i64, i64)| (p.0 as f64, p.1 as f64);
+        path.move_to(f(on[0]));
+        for i in 0..n {
+            let to = on[(i + 1) % n];
+            if quad[i] {
+                path.quad_to(f(c[i]), f(to));
+            } else if i + 1 < n || rng.chance(1, 2) {
+                path.line_to(f(to)); // (the closing line is sometimes left implicit)
+            }
+        }
+        path.close_path();
+        return;
+    }
+}
+
+/// the pen calls a closed integer path must come back as (26.6 units, like `CmdPen`): its own elements, without a
+/// final line back to the start point (the closing line is implicit)
+fn path_cmds(path: &kurbo::BezPath) -> Vec<String> {
+    let u = |v: f64| (v * 64.0) as i64;
+    let mut out: Vec<String> = vec![];
+    let mut start = (0i64, 0i64);
+    let mut last_line_to: Option<(i64, i64)> = None;
+    for el in path.elements() {
+        let mut line = None;
+        match *el {
+            kurbo::PathEl::MoveTo(p) => {
+                start = (u(p.x), u(p.y));
+                out.push(format!("M {} {}", start.0, start.1));
+            }
+            kurbo::PathEl::LineTo(p) => {
+                line = Some((u(p.x), u(p.y)));
+                out.push(format!("L {} {}", u(p.x), u(p.y)));
+            }
+            kurbo::PathEl::QuadTo(c, p) => out.push(format!("Q {} {} {} {}", u(c.x), u(c.y), u(p.x), u(p.y))),
+            kurbo::PathEl::CurveTo(..) => out.push("C".into()),
+            kurbo::PathEl::ClosePath => {
+                if last_line_to == Some(start) {
+                    out.pop();
+                }
+                out.push("Z".into());
+            }
+        }
+        last_line_to = line;
+    }
+    out
+}
+
+fn drop_closing_lines(cmds: Vec<String>) -> Vec<String> {
+    let mut out: Vec<String> = vec![];
+    let mut start = String::new();
+    for c in cmds {
+        if let Some(rest) = c.strip_prefix("M ") {
+            start = rest.to_string();
+        }
+        if c == "Z" && out.last().map_or(false, |l| l.strip_prefix("L ") == Some(start.as_str())) {
+            out.pop();
+        }
+        out.push(c);
+    }
+    out
+}
+
+/// Oracle on the real code alone: `from_bezpath` -> GlyfLocaBuilder / FontBuilder -> read-fonts -> skrifa unscaled
+/// draw gives back the source path's move / line / quad / close sequence, command for command, coordinate for
+/// coordinate. (An on-curve point may only be left out where the decoder re-creates exactly that point.)
+fn exact_draw_case(s: &mut Session, path: &kurbo::BezPath) {
+    let want = path_cmds(path);
+    let mut kept = String::new();
+    let r = catch(|| -> Result<Vec<String>, String> {
+        let glyph = SimpleGlyph::from_bezpath(path).map_err(|e| format!("from_bezpath {e:?}"))?;
+        kept = glyph
+            .contours
+            .iter()
+            .map(|c| c.iter().map(|p| format!("{},{},{}", p.x, p.y, if p.on_curve { "on" } else { "off" })).collect::<Vec<_>>().join(" "))
+            .collect::<Vec<_>>()
+            .join(" | ");
+        let data = font_with(&glyph)?;
+        let font = FontRef::new(&data).map_err(|e| e.to_string())?;
+        let og = font.outline_glyphs().get(GlyphId::new(1)).ok_or("no outline")?;
+        let mut pen = CmdPen::default();
+        og.draw(
+            skrifa::outline::DrawSettings::unhinted(skrifa::instance::Size::unscaled(), skrifa::instance::LocationRef::default()),
+            &mut pen,
+        )
+        .map_err(|e| format!("draw {e}"))?;
+        Ok(drop_closing_lines(pen.0))
+    });
+    let r = match r {
+        Ok(r) => r,
+        Err(p) => Err(format!("panic: {p}")),
+    };
+    let ok = matches!(&r, Ok(got) if *got == want);
+    s.oracle(
+        "bezpath-redraws-exact-command-sequence",
+        ok,
+        || path_tokens(path),
+        || match &r {
+            Ok(got) => {
+                let at = got.iter().zip(want.iter()).position(|(a, b)| a != b).unwrap_or(got.len().min(want.len()));
+                format!(
+                    "drawn (1/64 units) [{}] want [{}]; first difference at command {at}: drawn {:?} want {:?}; glyph points written: {kept}",
+                    got.join(" "),
+                    want.join(" "),
+                    got.get(at),
+                    want.get(at)
+                )
+            }
+            Err(e) => e.clone(),
+        },
+    );
+}
+
 // ---------------------------------------------------------------- reader fuzz
 
 fn mutate(rng: &mut Rng, bytes: &[u8]) -> Vec<u8> {
@@ -1555,6 +1752,41 @@ fn run(cfg: &Config, s: &mut Session) {
     ] {
         path_case(s, &kurbo::BezPath::from_svg(svg).unwrap());
         draw_case(s, &kurbo::BezPath::from_svg(svg).unwrap());
+    }
+    // --- implied-point decisions: joins on / next to the midpoint of their control points must redraw exactly
+    {
+        // (control, join, control): exact midpoint; x.5 / y.5 midpoints with the join on each neighbouring grid
+        // point (positive and negative sums: truncation and floor differ); one axis only; one unit off
+        let mut fixed: Vec<[(i64, i64); 3]> = vec![[(10, 0), (16, 6), (22, 12)], [(10, 0), (15, 6), (20, 12)], [(10, 0), (17, 6), (22, 12)]];
+        for (c0, c1) in [((10, 0), (21, 11)), ((-11, 0), (0, 11)), ((-10, 0), (-21, -11)), ((10, 0), (21, 12)), ((10, 0), (22, 11)), ((-3, -8), (-8, -3))] {
+            let (sx, sy): (i64, i64) = (c0.0 + c1.0, c0.1 + c1.1);
+            for jx in [sx.div_euclid(2), sx.div_euclid(2) + sx.rem_euclid(2)] {
+                for jy in [sy.div_euclid(2), sy.div_euclid(2) + sy.rem_euclid(2)] {
+                    fixed.push([c0, (jx, jy), c1]);
+                }
+            }
+        }
+        for [c0, j, c1] in fixed {
+            let f = |p: (i64, i64)| (p.0 as f64, p.1 as f64);
+            let mut p = kurbo::BezPath::new();
+            p.move_to((0.0, 0.0));
+            p.quad_to(f(c0), f(j));
+            p.quad_to(f(c1), (40.0, 11.0));
+            p.line_to((40.0, -20.0));
+            p.line_to((0.0, -20.0));
+            p.close_path();
+            path_case(s, &p);
+            exact_draw_case(s, &p);
+            draw_case(s, &p);
+        }
+    }
+    for _ in 0..500 * scale {
+        let mut p = kurbo::BezPath::new();
+        for _ in 0..*rng.pick(&[1, 1, 1, 2]) {
+            gen_join_contour(&mut rng, s, &mut p);
+        }
+        path_case(s, &p);
+        exact_draw_case(s, &p);
     }
 }
 
